@@ -396,6 +396,21 @@ func (c *c02) runPar2(r *core.R, p c02Params, rng *rand.Rand) {
 	}
 	env := &p2env{root: root, dir: dir, idx: idx, set: set, st: st, paths: paths}
 	env.sync()
+	for i, c := range st.Cur {
+		if c.Present {
+			continue
+		}
+		for _, twin := range []string{strings.ToLower(paths[i]), strings.ToUpper(paths[i])} {
+			// only the last component changes case (directories stay)
+			twin = filepath.Join(filepath.Dir(paths[i]), filepath.Base(twin))
+			if twin != paths[i] && len(filepath.Base(twin)) < 200 {
+				if _, err := os.Lstat(twin); err != nil && os.MkdirAll(filepath.Dir(twin), 0755) == nil {
+					os.WriteFile(twin, []byte("an unrelated file"), 0644)
+					r.Count("case_twins_beside_deleted_files", 1)
+				}
+			}
+		}
+	}
 	vols := env.volumeFiles()
 	for _, v := range vols {
 		switch {
@@ -596,6 +611,22 @@ func (c *c02) par1DamageAndJudge(r *core.R, p c02Params, rng *rand.Rand, e *p1en
 		d.bad[i] = kinds[rng.Intn(len(kinds))]
 	}
 	e.apply(d, rng)
+	// beside a deleted protected file sits an unrelated file whose name differs
+	// from it only in the case of its letters
+	for i, k := range d.bad {
+		if k != "delete" {
+			continue
+		}
+		for _, twin := range []string{strings.ToLower(files[i].Name), strings.ToUpper(files[i].Name)} {
+			tp := filepath.Join(e.dir, twin)
+			if twin != files[i].Name && len(twin) < 200 {
+				if _, err := os.Lstat(tp); err != nil {
+					os.WriteFile(tp, []byte("an unrelated file, "+twin), 0644)
+					r.Count("case_twins_beside_deleted_files", 1)
+				}
+			}
+		}
+	}
 	for v := 1; v <= nv; v++ {
 		vp := e.volPath(v)
 		switch {
